@@ -171,7 +171,7 @@ def check_molecule(m, zs, pos, rng, tmp, with_bonds):
     if not np.allclose(m2.positions, pos, rtol=0, atol=0.51e-12 + 1e-16 * np.abs(pos).max()):
         return f"xyz: coordinates differ by {np.abs(m2.positions - pos).max():.3g} (> 1e-12 precision of the format)"
     # the format named explicitly (fmt=) decides, for writing and for reading alike, whatever the file is called
-    for name, fmt in (("as_xyz.sdf", "xyz"), ("as_xyz.dat", "xyz"), ("noext", ".xyz")) + ((("as_sdf.xyz", "sdf"),) if np.abs(pos).max() < 9999.99994 else ()):
+    for name, fmt in (("as_xyz.sdf", "xyz"), ("as_xyz.dat", "xyz"), ("noext", ".xyz"), ("coord", "xyz"), ("control", "xyz")) + ((("as_sdf.xyz", "sdf"), ("coord", "sdf")) if np.abs(pos).max() < 9999.99994 else ()):
         pf = os.path.join(tmp, name)
         try:
             m.save(pf, fmt=fmt)
@@ -244,7 +244,7 @@ def judge(seed, nmax, with_bonds):
     rng = random.Random(seed)
     tmp = tempfile.mkdtemp(prefix="chmpy_c16_")
     try:
-        m, zs, pos = random_molecule(rng, nmax, 9e3 if rng.random() < 0.8 else 9e5)
+        m, zs, pos = random_molecule(rng, nmax, rng.choice([9e3, 9e3, 9e3, 9e3, 9e5, 9e6, 9e8]))
         try:
             return check_molecule(m, zs, pos, rng, tmp, with_bonds), len(zs)
         except Exception as ex:  # noqa
